@@ -78,6 +78,28 @@ def f_modes(prog, reg, repo):
     return out
 
 
+def f_build_once(prog, reg, repo):
+    """Justifies the abstract contract of Parser.match_token (contracts/b_parser.py): on every path of every state
+    function the token is built exactly once, as the last production, or reported as unexpected -- never both,
+    never neither; the queue and scanner are touched only through read_token / lookahead_k (any other access makes
+    the extraction fail)."""
+    a = _auto(prog, reg, repo)
+    bad, n = [], 0
+    for st, cfg in a["tbl"].items():
+        for key, paths in cfg.items():
+            for p in paths:
+                n += 1
+                builds = [e for e in p.events if e[0] == "build"]
+                if p.result[0] == "return":
+                    if len(builds) != 1 or p.events[-1] != ("build",):
+                        bad.append(f"state {st} {key}: successful path with events {p.events}")
+                else:
+                    if builds or p.events:
+                        bad.append(f"state {st} {key}: error path with events {p.events}")
+    return [ob("automaton::build-once[each path builds the token exactly once (last) or reports it]", not bad,
+               "; ".join(bad[:4]), size=n)]
+
+
 def f_siblings(prog, reg, repo):
     a = _auto(prog, reg, repo)
     out = []
@@ -215,7 +237,7 @@ def f_rt(script, name):
 PROPS = {
     "C01": dict(finite=[f_table_extraction, f_modes, f_lookahead_targets]),
     "C02": dict(finite=[f_table_extraction, f_siblings, f_bisim]),
-    "C03": dict(finite=[f_corpus(["ast"], "ast")]),
+    "C03": dict(finite=[f_build_once, f_corpus(["ast"], "ast")]),
     "C04": dict(finite=[]),
     "C05": dict(finite=[f_json_identity]),
     "C06": dict(finite=[]),
@@ -230,7 +252,7 @@ PROPS = {
     "C15": dict(finite=[]),
     "C16": dict(finite=[]),
     "C17": dict(finite=[f_corpus(["source", "ast", "pickles", "errors"], "events")]),
-    "C18": dict(finite=[f_lookahead_targets, f_corpus(["tokens"], "tokens")]),
+    "C18": dict(finite=[f_table_extraction, f_build_once, f_lookahead_targets, f_corpus(["tokens"], "tokens")]),
     "C19": dict(finite=[]),
 }
 
